@@ -59,6 +59,14 @@ static std::atomic<long> g_progress(0);
 struct ev_handler { logbook *lb; long id; std::atomic<int> *done; void operator()(booster::system::error_code const &e) const { lb->ran(id, e); if (done) done->store(1); g_progress++; } };
 struct plain_handler { logbook *lb; long id; void operator()() const { lb->ran(id, booster::system::error_code()); g_progress++; } };
 
+// Single-threaded scenarios end by ORDER, not by the clock: the handler that completes the expected set posts a two-hop stop. A far
+// watchdog timer (10 s for a few microseconds of work) only bounds the wait for a handler that never comes.
+struct chain_stop2 { aio::io_service *s; void operator()() const { s->stop(); } };
+struct chain_stop1 { aio::io_service *s; void operator()() const { chain_stop2 h = { s }; s->post(h); } };
+struct watchdog_stop { aio::io_service *s; void operator()(booster::system::error_code const &e) const { if (e) return; chain_stop1 h = { s }; s->post(h); } };
+struct counted_handler { logbook *lb; long id; std::atomic<int> *remaining; aio::io_service *srv;
+	void operator()(booster::system::error_code const &e) const { lb->ran(id, e); g_progress++; if (remaining->fetch_sub(1) == 1) { chain_stop1 h = { srv }; srv->post(h); } } };
+
 static void loop_scenario(rng &r0, int reactor, int producers, int actions, std::string const &rname_hint)
 {
 	aio::io_service srv(reactor);
@@ -395,24 +403,25 @@ static void rearm_scenario(rng &r, int reactor)
 	struct stop1 { aio::io_service *s; void operator()() const { stop2 h = { s }; s->post(h); } };
 	struct stopper { aio::io_service *s; void operator()(booster::system::error_code const &) const { stop1 h = { s }; s->post(h); } };
 	struct final_cancel { aio::deadline_timer *t; logbook *lb; long id; void operator()() const { lb->mark_cancel(id); t->cancel(); } };
-	struct arm { aio::io_service *srv; aio::deadline_timer *t; logbook *lb; std::vector<long> *ids; int chain;
+	std::atomic<int> remaining(chain + 1);
+	struct arm { aio::io_service *srv; aio::deadline_timer *t; logbook *lb; std::vector<long> *ids; int chain; std::atomic<int> *remaining;
 		void operator()() const {
 			for (int i = 0; i < chain; i++) {
 				t->expires_from_now(ptime::from_number(30));
 				long id = lb->add(K_TIMER_CANCEL, 0); ids->push_back(id);
-				ev_handler h = { lb, id, 0 }; t->async_wait(h);
+				counted_handler h = { lb, id, remaining, srv }; t->async_wait(h);
 				lb->mark_cancel(id); t->cancel();
 			}
-			t->expires_from_now(ptime::from_number(0.25));
+			t->expires_from_now(ptime::from_number(30));
 			long id = lb->add(K_TIMER_CANCEL, 0); ids->push_back(id);
-			ev_handler h = { lb, id, 0 }; t->async_wait(h);
+			counted_handler h = { lb, id, remaining, srv }; t->async_wait(h);
 			// the cancel of the last wait goes behind the queued completions of the cancelled ones
 			final_cancel fc = { t, lb, id }; srv->post(fc);
 		} };
-	arm a = { &srv, &t, &lb, &ids, chain };
+	arm a = { &srv, &t, &lb, &ids, chain, &remaining };
 	srv.post(a);
-	stopper st = { &srv };
-	srv.set_timer_event(ptime::now() + ptime::from_number(0.6), st);
+	watchdog_stop st = { &srv };
+	srv.set_timer_event(ptime::now() + ptime::from_number(10), st);
 	srv.run();
 	std::vector<int> count(lb.regs.size(), 0); std::vector<run const *> first(lb.regs.size(), (run const *)0);
 	for (auto const &x : lb.runs) { count[x.id]++; if (!first[x.id]) first[x.id] = &x; }
@@ -441,19 +450,20 @@ static void double_wait_scenario(rng &r, int reactor)
 	struct stop2 { aio::io_service *s; void operator()() const { s->stop(); } };
 	struct stop1 { aio::io_service *s; void operator()() const { stop2 h = { s }; s->post(h); } };
 	struct stopper { aio::io_service *s; void operator()(booster::system::error_code const &) const { stop1 h = { s }; s->post(h); } };
-	struct arm { aio::io_service *srv; logbook *lb; std::vector<long> *ids; int fd, peer, waits; bool reading;
+	std::atomic<int> remaining(waits);
+	struct arm { aio::io_service *srv; logbook *lb; std::vector<long> *ids; int fd, peer, waits; bool reading; std::atomic<int> *remaining;
 		void operator()() const {
 			for (int i = 0; i < waits; i++) {
 				long id = lb->add(reading ? K_IO_READ : K_IO_WRITE, 0); ids->push_back(id);
-				ev_handler h = { lb, id, 0 };
+				counted_handler h = { lb, id, remaining, srv };
 				srv->set_io_event(fd, reading ? aio::io_events::in : aio::io_events::out, h);
 			}
 			if (reading) { char c = 'x'; if (write(peer, &c, 1) != 1) {} }
 		} };
-	arm a = { &srv, &lb, &ids, sv[0], sv[1], waits, reading };
+	arm a = { &srv, &lb, &ids, sv[0], sv[1], waits, reading, &remaining };
 	srv.post(a);
-	stopper st = { &srv };
-	srv.set_timer_event(ptime::now() + ptime::from_number(0.4), st);
+	watchdog_stop st = { &srv };
+	srv.set_timer_event(ptime::now() + ptime::from_number(10), st);
 	srv.run();
 	std::vector<int> count(lb.regs.size(), 0); std::vector<run const *> first(lb.regs.size(), (run const *)0);
 	for (auto const &x : lb.runs) { count[x.id]++; if (!first[x.id]) first[x.id] = &x; }
@@ -490,32 +500,34 @@ static void fd_reuse_scenario(rng &r, int reactor)
 	struct stop1 { aio::io_service *s; void operator()() const { stop2 h = { s }; s->post(h); } };
 	struct stopper { aio::io_service *s; void operator()(booster::system::error_code const &) const { stop1 h = { s }; s->post(h); } };
 	struct nop { void operator()() const {} };
-	struct swap_fd { aio::io_service *srv; logbook *lb; int *a; int *b; long old_id; long *new_id; bool *reused;
+	std::atomic<int> remaining(2);
+	struct swap_fd { aio::io_service *srv; logbook *lb; int *a; int *b; long old_id; long *new_id; bool *reused; std::atomic<int> *remaining;
 		void operator()() const {
 			lb->mark_cancel(old_id);
 			srv->cancel_io_events(a[0]);
 			int number = a[0];
 			close(a[0]); a[0] = -1;
-			if (socketpair(AF_UNIX, SOCK_STREAM, 0, b)) return;
-			if (b[0] != number) { if (b[1] == number) std::swap(b[0], b[1]); else return; }
+			bool ok = socketpair(AF_UNIX, SOCK_STREAM, 0, b) == 0;
+			if (ok && b[0] != number) { if (b[1] == number) std::swap(b[0], b[1]); else ok = false; }
+			if (!ok) { remaining->fetch_sub(1); if (remaining->load() == 0) { chain_stop1 h = { srv }; srv->post(h); } return; }      // the number was not reused: only the old handler is awaited
 			*reused = true;
 			*new_id = lb->add(K_IO_READ, 0);
-			ev_handler h = { lb, *new_id, 0 };
+			counted_handler h = { lb, *new_id, remaining, srv };
 			srv->set_io_event(b[0], aio::io_events::in, h);
 			if (write(b[1], "NEW", 3) != 3) {}
 		} };
 	struct arm { aio::io_service *srv; logbook *lb; int *a; long old_id; swap_fd sw; int behind;
 		void operator()() const {
-			ev_handler h = { lb, old_id, 0 };
+			counted_handler h = { lb, old_id, sw.remaining, srv };
 			srv->set_io_event(a[0], aio::io_events::in, h);
 			srv->post(sw);
 			for (int i = 0; i < behind; i++) srv->post(nop());
 		} };
-	swap_fd sw = { &srv, &lb, a, b, old_id, &new_id, &reused };
+	swap_fd sw = { &srv, &lb, a, b, old_id, &new_id, &reused, &remaining };
 	arm ar = { &srv, &lb, a, old_id, sw, behind };
 	srv.post(ar);
-	stopper st = { &srv };
-	srv.set_timer_event(ptime::now() + ptime::from_number(0.4), st);
+	watchdog_stop st = { &srv };
+	srv.set_timer_event(ptime::now() + ptime::from_number(10), st);
 	srv.run();
 	std::string rp = "{\"scenario\":\"fd-reuse\",\"reactor\":" + std::to_string(reactor) + ",\"handlers_queued_behind\":" + std::to_string(behind) + "}";
 	if (reused) {
